@@ -625,6 +625,8 @@ static const char* reb_string_for_particle_error(int err){
         return "Cannot pass both (omega, pomega) together.";
     if (err==14)
         return "Can only pass one longitude/anomaly in the set (f, M, E, l, theta, T).";
+    if (err==15)
+        return "(h, k) coordinates are not valid. Squared sum (the eccentricity squared) must be smaller than 1.";
     return "An unknown error occured during reb_simulation_add_fmt().";
 
 }
@@ -871,6 +873,10 @@ static struct reb_particle reb_particle_from_fmt_errV(struct reb_simulation* r, 
         if (isnan(iy)) iy=0;
         if ((ix*ix + iy*iy) > 4.0){
             *err = 12; // e too high 
+            return reb_particle_nan();
+        }
+        if ((h*h + k*k) >= 1.0){
+            *err = 15; // only bound orbits 
             return reb_particle_nan();
         }
         struct reb_particle particle = reb_particle_from_pal(r->G, primary, m, a, l, k, h, ix, iy);
